@@ -4,7 +4,8 @@
 (* check with the input that was being processed).  Contract:                *)
 (*   the sentinel request that follows is still relayed (no wedge);          *)
 (*   memory allocated meanwhile <= 256 x bytes received + 4 MiB;             *)
-(*   an undecodable start line over TCP closes that connection.              *)
+(*   an undecodable start line over TCP closes that connection, and so does  *)
+(*   a stream that ends (FIN) inside a message - e.garbage marks both.       *)
 EXTENDS Integers, Sequences, TLC, Json, IOUtils
 Trace == ndJsonDeserialize(IOEnv.TRACE_FILE)
 VARIABLE l
